@@ -224,27 +224,40 @@ def task_cse_pair(pd, tier, seed):
 
         ls = explore(harness, assumes=assumes)
         part.leaves(ls)
-        if len(ls) != 1 or ls[0].status != "ok":
+        if not ls or any(l.status != "ok" for l in ls):
             part.harness_error(f"{p.id}: cse pair: {ls}")
             return part.d
-        outs[cse] = ls[0].value
+        outs[cse] = ls
     ss = p.s_state()
-    for s in p.state:
-        a, b = lift(outs[True].data[ss.index(s), 0]), lift(outs[False].data[ss.index(s), 0])
+    from .common import solve as _solve
 
-        def replay(e, s=s):
-            return {"impl": concrete_model(p, True, e)[s], "spec": concrete_model(p, False, e)[s]}
+    multi = len(outs[True]) > 1 or len(outs[False]) > 1
+    matched = 0
+    for i, on in enumerate(outs[True]):
+        for j, off in enumerate(outs[False]):
+            pa = assumes + on.pc + off.pc
+            if multi and _solve(pa, 5000).status == "unsat":
+                continue
+            matched += 1
+            for s in p.state:
+                a, b = lift(on.value.data[ss.index(s), 0]), lift(off.value.data[ss.index(s), 0])
 
-        prove_equal(part, PID, f"{p.id}/model[{s}] cse-on==cse-off", a, b, assumes, tier_timeout_ms(tier), replay=replay, key=f"{p.id}/cse-pair[{s}]", info={"program": p.id, "state": s, "kind": "cse-pair"}, all_vars=env)
+                def replay(e, s=s):
+                    return {"impl": concrete_model(p, True, e)[s], "spec": concrete_model(p, False, e)[s]}
+
+                tag = f"/path{i}x{j}" if multi else ""
+                prove_equal(part, PID, f"{p.id}{tag}/model[{s}] cse-on==cse-off", a, b, pa, tier_timeout_ms(tier), replay=replay, key=f"{p.id}/cse-pair[{s}]", info={"program": p.id, "state": s, "kind": "cse-pair"}, all_vars=env)
+    if matched == 0:
+        part.harness_error(f"{p.id}: cse pair: no jointly feasible pair of paths")
     return part.d
 
 
 def programs_for(tier, seed):
     if tier == "quick":
-        ps = [CP.P1(), CP.P3(), CP.P8(), CP.P7(), CP.P11(), with_proactive(CP.P3())]
+        ps = [CP.P1(), CP.P3(), CP.P8(), CP.P7(), CP.P11(), CP.P17(), CP.P18(), with_proactive(CP.P3())]
         ps += [CP.P3().restrict(control=False, calibration=True), CP.P3().restrict(control=True, calibration=False)]
         return ps
-    ps = CP.all_fixed() + [CP.P11(), with_proactive(CP.P3()), with_proactive(CP.P10()), with_proactive(CP.P7())]
+    ps = CP.all_fixed() + [CP.P11(), CP.P18(), with_proactive(CP.P3()), with_proactive(CP.P10()), with_proactive(CP.P7())]
     ps += CP.presence_variants(CP.P3())[1:] + CP.presence_variants(CP.P10())[1:]
     ps += [CP.random_program(seed, i) for i in range(10)]
     return ps
